@@ -27,9 +27,12 @@ CLAIM = {
     "text": "For ALL declaration lists in any supply order the model's initializer order contains every registered "
             "initializer once and respects the transitive closure of column / value (source, every modifier, "
             "pipelines as sources) / stream requirements; duplicates and every cycle are refused, acyclic accepted "
-            "registrations are never refused, unmet requirements change nothing (16 theorems, closed). The real "
-            "ResourceManager graph, refusals and the ACTUAL initializer call orders of random programs built through "
-            "the real builder services agree with the model and pass the verified order checker.",
+            "registrations are never refused, refusal is invariant under node renaming, unmet requirements change nothing "
+            "(20 theorems, closed). The real "
+            "ResourceManager graph (same initializer groups and - by a reachability function proved exact - the same "
+            "must-precede relation among them), refusals (also in the reversed supply order) and the ACTUAL initializer "
+            "call orders of random programs built through every public declaration API agree with the model and pass "
+            "the verified order checker.",
     "note": "Trusted: the hand transcription of resource.py / population/manager.py / values.py / randomness/manager.py "
             "into Resources.v (validated on the sampled programs only), structured resource names (no dots in user "
             "names), the probe harness incl. logging wrappers on the two framework initializers, reading "
@@ -163,13 +166,32 @@ def _split_deps(deps):
     return rc, rv, rs, other
 
 
-def resource_manager(sim):
-    """the context's ResourceManager (held in a private attribute: found by type, so that a rename cannot matter)"""
+def resource_manager(sim, producers=()):
+    """The context's ResourceManager.  It is held in a private attribute, so it is found by type: among the context's
+    attributes, then among their attributes, then among all live managers (the one whose graph holds one of
+    `producers`).  None if it cannot be found (the caller then observes the call orders only - counted, not failed)."""
+    import gc
     from vivarium.framework.resource import ResourceManager
-    for v in vars(sim).values():
+    level1 = list(getattr(sim, "__dict__", {}).values())
+    for v in level1:
         if isinstance(v, ResourceManager):
             return v
-    raise RuntimeError("C09 harness: the context holds no ResourceManager")
+    for v in level1:
+        for w in (list(v.values()) if isinstance(v, dict) else list(v) if isinstance(v, (list, tuple)) else
+                  list(getattr(v, "__dict__", {}).values())):
+            if isinstance(w, ResourceManager):
+                return w
+    live = [o for o in gc.get_objects() if isinstance(o, ResourceManager)]
+    if producers is None:                      # the only context built so far in this process (see ambient())
+        return live[-1] if len(live) == 1 else None
+    wanted = {id(p) for p in producers}
+    for o in live:
+        try:
+            if any(id(getattr(n.producer, "__self__", None)) in wanted for n in o.graph.nodes):
+                return o
+        except Exception:          # noqa: BLE001 - a manager of another, half-built context
+            continue
+    return None
 
 
 def ambient():
@@ -183,7 +205,10 @@ def ambient():
     boot.quiet_logging()
     sim.setup()
     decls, inits, seen = [], [], set()
-    for g in resource_manager(sim).graph.nodes:
+    mgr = resource_manager(sim, None)
+    if mgr is None:
+        raise RuntimeError("C09 harness: no ResourceManager reachable from an empty context")
+    for g in mgr.graph.nodes:
         if id(g) in seen:
             continue
         seen.add(id(g))
@@ -604,7 +629,7 @@ def canonical(case):
                 pid += 1
             calls.append(call)
         comps.append({"name": comp["name"], "calls": calls, "auto": comp.get("auto"), "pos": bool(comp.get("pos"))})
-    return {"kc": list(case.get("kc", [])), "comps": comps, "mode": case.get("mode", "?")}
+    return {"kc": list(case.get("kc", [])), "comps": comps, "mode": case.get("mode", "?"), "rev": bool(case.get("rev"))}
 
 
 def with_fun_ids(decls, owners, ids):
@@ -697,6 +722,35 @@ def run_graph(case):
                     for a in anc.get(who, []):
                         if a != who and pos[a] > pos[who]:
                             ok, msg = False, f"initializer {who} ran before {a}, which it (transitively) requires"
+    # ---- whatever order the components were supplied in: refusal parity in the reversed supply order ----
+    rev_outcome = None
+    if case.get("rev") and ok:
+        run2 = {"log": [], "births": [], "marks": [], "born": []}
+        comps2 = [(AutoProbe if c.get("auto") is not None else Probe)(c, run2) for c in reversed(case["comps"])] + [Birther(run2)]
+        boot.reset_contexts()
+        err2 = None
+        with AmbientLog(run2):
+            try:
+                sim2 = SimulationContext(components=comps2, configuration=config, logging_verbosity=0)
+                boot.quiet_logging()
+                sim2.setup()
+                sim2.initialize_simulants()
+            except Exception as e:                 # noqa: BLE001
+                err2 = e
+        rev_outcome = "accepted" if err2 is None else type(err2).__name__
+        if (err is None) != (err2 is None):
+            ok, msg = False, (f"refusal depends on the supply order: given order -> {type(err).__name__ if err else 'accepted'}, "
+                              f"reversed -> {type(err2).__name__ if err2 else 'accepted'}")
+        elif err2 is None:
+            order2 = [c[0] for c in run2["log"]]
+            pos2 = {who: i for i, who in enumerate(order2)}
+            if sorted(map(str, order2)) != sorted(map(str, init_ids)):
+                ok, msg = False, f"reversed supply order: initializers called {order2} != registered {init_ids}"
+            else:
+                for who in order2:
+                    for a in anc.get(who, []):
+                        if a != who and pos2[a] > pos2[who]:
+                            ok, msg = False, f"reversed supply order: initializer {who} ran before {a}, which it requires"
     # ---- observation for Coq ----
     kc_coq = czlist(map(ids.c, kc))
     ds_coq = clist("\n     " + coq_decl(ids, d, amb_ids) for d in decls)
@@ -708,10 +762,20 @@ def run_graph(case):
             return 200 + int(x[3:])
         return ids.p(x)
     obs = {"error": None if err is None else f"{type(err).__name__}: {str(err)[:160]}", "stage": stage, "code": code}
+    graph_seen = True
+    if rev_outcome is not None:
+        obs["reversed_supply_order"] = rev_outcome
     if err is not None:
         ob = f"(ObsErr {cz(code)})"
     else:
-        g = resource_manager(sim).graph
+        mgr = resource_manager(sim, comps)
+        calls = [czlist(init_id(c[0]) for c in cl) for _, cl in creations]
+        obs.update(calls=[[c[0] for c in cl] for _, cl in creations])
+    if err is None and mgr is None:
+        ob = f"(ObsOrder {clist(calls)})"
+        graph_seen = False
+    elif err is None:
+        g = mgr.graph
         ogs, seen = [], set()
         for node in g.nodes:
             if id(node) in seen:
@@ -730,15 +794,15 @@ def run_graph(case):
                     prod = ids.p(owner.name)
             ogs.append(cpair(clist(ids.res(n) for n in node.names), cz(prod), clist(ids.res(d) for d in node.dependencies)))
         oes = [cpair(ids.res(u.names[0]), ids.res(v.names[0])) for u, v in g.edges]
-        calls = [czlist(init_id(c[0]) for c in cl) for _, cl in creations]
         ob = f"(ObsOk {clist(ogs)}\n     {clist(oes)}\n     {clist(calls)})"
-        obs.update(nodes=len(ogs), edges=len(oes), calls=[[c[0] for c in cl] for _, cl in creations])
+        obs.update(nodes=len(ogs), edges=len(oes))
     coq = cpair(kc_coq, ds_coq, ob)
     _COQ_CASES.append(coq)
     n = len(case["comps"])
     tags = (f"mode_{case['mode']}", f"outcome_{'ok' if code == 0 else 'err' + str(code)}",
             f"comps_{'0' if n == 0 else '1-3' if n <= 3 else '4-6' if n <= 6 else '7+'}",
-            f"decls_{min(len(decls) // 10 * 10, 40)}+") + tuple(sorted({f"decl_{d[0]}" for d in decls})) + \
+            f"decls_{min(len(decls) // 10 * 10, 40)}+") + (() if graph_seen else ("graph_unobservable",)) + \
+        (("second_supply_order",) if case.get("rev") else ()) + tuple(sorted({f"decl_{d[0]}" for d in decls})) + \
         tuple(sorted({f"call_{c[0]}" for comp in case["comps"] for c in comp["calls"]}
                      | {"call_auto_requirements" for comp in case["comps"] if comp.get("auto") is not None}
                      | {"style_positional" if comp.get("pos") else "style_keyword" for comp in case["comps"]}))
@@ -862,6 +926,7 @@ def gen_program(rng, max_comps=8):
     if mode == "chain":
         c = chain_case(rng.choice(ENTRY_POINTS), rng.choice(KEYWORD_SETS), rng.random() < 0.5, rng.randint(1, 4))
         rng.shuffle(c["comps"])
+        c["rev"] = rng.random() < 0.2
         return c
     P = Prog(rng, max_comps)
     step_at = rng.randint(1, 6) if rng.random() < 0.3 else -1
@@ -931,7 +996,7 @@ def gen_program(rng, max_comps=8):
             rng.shuffle(c["calls"])
     order = list(comps.values())
     rng.shuffle(order)
-    return {"kc": P.kc, "comps": order, "mode": mode}
+    return {"kc": P.kc, "comps": order, "mode": mode, "rev": rng.random() < 0.2}
 
 
 def plant_cycle(P, rng):
@@ -1141,6 +1206,8 @@ def corpus():
                                         comp("p2", [["raw", "column", [], ["column.c1"]], ["raw", "missing_value_source", ["v3"], ["column.c1"]]],
                                              auto=[["c1"], [], [], []])], "mode": "corpus_unmet"})
     out.append({"kc": [], "comps": [], "mode": "corpus_empty"})
+    for c in out:
+        c["rev"] = True
     # every API entry point x every requires_* keyword alone and all three mixed, consumer shallow / producer deep,
     # keyword and positional call styles
     i = 0
@@ -1159,9 +1226,39 @@ def corpus():
     return out
 
 
+def shrink_graph(case):
+    """Smaller variants of a program: drop a component, a call, an automatic initializer, one requirement / created
+    column / raw dependency, a key column; plain keyword calls; no second supply order."""
+    import copy
+    comps = case["comps"]
+    for i in range(len(comps)):
+        c = copy.deepcopy(case); del c["comps"][i]; yield c
+    for i, comp in enumerate(comps):
+        for j in range(len(comp["calls"])):
+            c = copy.deepcopy(case); del c["comps"][i]["calls"][j]; yield c
+        if comp.get("auto") is not None:
+            c = copy.deepcopy(case); c["comps"][i]["auto"] = None; yield c
+    for i in range(len(case.get("kc", []))):
+        c = copy.deepcopy(case); del c["kc"][i]; yield c
+    for i, comp in enumerate(comps):
+        for j, call in enumerate(comp["calls"]):
+            for k, arg in enumerate(call):
+                if isinstance(arg, list):
+                    for m in range(len(arg)):
+                        c = copy.deepcopy(case); del c["comps"][i]["calls"][j][k][m]; yield c
+        if comp.get("auto") is not None:
+            for k, arg in enumerate(comp["auto"]):
+                for m in range(len(arg)):
+                    c = copy.deepcopy(case); del c["comps"][i]["auto"][k][m]; yield c
+        if comp.get("pos"):
+            c = copy.deepcopy(case); c["comps"][i]["pos"] = False; yield c
+    if case.get("rev"):
+        c = copy.deepcopy(case); c["rev"] = False; yield c
+
+
 def streams(tier):
     return [Stream(name="graphs", imports="From Viv Require Import Common Kahn Resources.", check="check_case",
-                   gen=gen_quick if tier == "quick" else gen_thorough, run=run_graph, corpus=corpus,
+                   gen=gen_quick if tier == "quick" else gen_thorough, run=run_graph, corpus=corpus, shrink=shrink_graph,
                    n_quick=500, n_thorough=8000,
                    doc="random dependency graphs declared through the real builder services in real contexts")]
 
@@ -1178,7 +1275,8 @@ def extra(run):
     with open(path, "w") as f:
         f.write("From Viv Require Import Common Kahn Resources.\nLocal Open Scope Z_scope.\n"
                 "Definition cases := " + clist("\n  " + c for c in cases) + ".\n"
-                "Eval vm_compute in (length (filter same_order cases), length cases).\n")
+                "Eval vm_compute in (length (filter same_order cases), length cases).\n"
+                "Eval vm_compute in (length (filter same_graph cases), 0%nat, length cases).\n")
     rc, out, errtxt = run.coqc(path, timeout=300)
     m = re.search(r"=\s*\((\d+)%nat,\s*(\d+)%nat\)", out)
     if m:
@@ -1186,3 +1284,7 @@ def extra(run):
                          f"(reported, not required)")
     else:
         run.notes.append("same_order report unavailable: " + (errtxt or out)[-200:])
+    m = re.search(r"=\s*\((\d+)%nat,\s*0%nat,\s*(\d+)%nat\)", out)
+    if m:
+        run.notes.append(f"whole resource graph (every node, dependency list and edge) identical to the model's in {m.group(1)} "
+                         f"of {m.group(2)} cases (reported; required: same initializer groups and same must-precede relation)")
